@@ -54,6 +54,7 @@ def opOfJson (j : Json) : Except String Op := do
   | "freeze" => do .ok (.freeze (← asNat (← argAt j 1)))
   | "unfreeze" => do .ok (.unfreeze (← asNat (← argAt j 1)))
   | "copy" => do .ok (.copy (← asNat (← argAt j 1)) (← optNat (← argAt j 2)))
+  | "copyView" => do .ok (.copyView (← asNat (← argAt j 1)) (← asNat (← argAt j 2)))
   | "pop" => do .ok (.pop (← asNat (← argAt j 1)) (← asStr (← argAt j 2)))
   | "pickle" => do .ok (.pickle (← asNat (← argAt j 1)))
   | "treeMap" => do .ok (.treeMap (← asNat (← argAt j 1)))
